@@ -49,3 +49,8 @@ Proof.
   - now apply move_equivariant_abs.
   - destruct Hp as [Hs _]. unfold size_ok. lia.
 Qed.
+
+(* TransformMove is tm, stated with the abstraction of the move record *)
+Lemma transform_move_tm_raw : forall k s m, k < 8 -> size_ok s -> transformable m ->
+  transform_move (csym s k) m = Ok (tmr k s m) /\ raw (tmr k s m) = tm k (Z.of_nat s) (raw m).
+Proof. intros k s m H1 H2 H3. exact (conj (transform_move_tm k s m H1 H2 H3) (raw_tmr k s m)). Qed.
